@@ -677,7 +677,7 @@ SUBCHECKS = [
                   "hierarchy built up front or with a path simulated between the levels: coarse / fine diffusion matrix "
                   "vs chains built independently on copies of the level grids; one coupled sample without jumps vs the "
                   "two matrices times the scripted Brownian row",
-             strategy=strat_copula_iv, budget={"quick": 32, "thorough": 320}, shards={"quick": 16, "thorough": 16},
+             strategy=strat_copula_iv, budget={"quick": 32, "thorough": 64}, shards={"quick": 16, "thorough": 16},
              essential_labels=("levels-built-up-front", "path-between-levels")),
     SubCheck("coupling-sde-drifts", body_sde, classify_sde,
              rule="CouplingSDE over a 1-d driver, levels 1..2: mc_drift_2h = drift of a fresh level-(l-1) chain, "
